@@ -62,6 +62,8 @@ class ModuleSrc:
                 if isinstance(n, (ast.ClassDef, ast.FunctionDef)) and n.name == name:
                     found = n
                     break
+            if found is None and i == 0 and name in self.classes:
+                found = self.classes[name]          # a nested class addressed by its bare name
             if found is None:
                 return None
             node = found
